@@ -208,25 +208,50 @@ theorem reference_decodes_to_target (l : Labels) (off addr : Nat) (rs : List (Pa
   rw [h4, ofLeBytes_leBytes _ _ hp2]
   exact ⟨C05.write_decodes _ _ _ _ h3, hp1⟩
 
-/-! ## the property is FALSE of histories that continue after a failed commit (known finding `retry-after-failed-commit-*`)
+/-! ## histories that continue after a failed commit (defect repaired in /repo: `fix: a failed commit dropped the references it had not resolved`)
 
-`reference_decodes_to_target` speaks about the references that are in the registry when the patch loop runs. The loop iterates
-`Vec::drain(..)`: when it returns early (a reference without definition, a distance that does not fit) the failing reference and every
-static reference behind it are gone. The theorem below is the negation of C01 for such histories, stated for the model of
-`VecAssembler` (the `asm` stream shows the implementation behaves the same, and `Assembler::encode_relocs` has the same loop): after the
-failing commit, WHATEVER labels are defined afterwards, the next commit succeeds without touching a byte — the failing reference keeps its
-placeholder. The check replays the witness on the implementation (lib/c01.py, retry histories) and reports it as a known finding. -/
+`reference_decodes_to_target` speaks about the references that are in the registry when the patch loop runs. Before the repair the
+loop iterated `Vec::drain(..)`: an early return lost the failing reference and every static reference behind it, and a later commit
+succeeded with their fields unpatched (the theorem `retry_after_failed_commit_publishes_unpatched` proved that of the old model). Now the
+registry after a failing loop holds exactly the references that were not patched, so a commit can only succeed (`C16.commit_ok_drains`:
+nothing pending afterwards) once every reference ever recorded has gone through a successful patch step. -/
 
-theorem retry_after_failed_commit_publishes_unpatched (a : VecAsm) (b : List Byte) (m : List PatchLoc) (e : Err)
-    (herr : a.core.error = none) (hdyn : a.core.dynamics = [])
+/-- **A failing commit keeps what it has not patched.** The recorded static references split into a prefix that a SUCCESSFUL loop has
+patched — producing exactly the buffer the failing commit leaves, so `reference_decodes_to_target` applies to every reference of the
+prefix — and the rest, which is non-empty, starts with the reference that failed, and is still registered; dynamic references are
+untouched. -/
+theorem failed_commit_keeps_unpatched (a : VecAsm) (b : List Byte) (m : List PatchLoc) (e : Err)
+    (herr : a.core.error = none)
     (hloop : patchStatics a.core.labels 0 a.base a.core.statics a.ops [] = (b, m, .err e)) :
-    a.commit.2 = .err e ∧ a.commit.1.ops = b ∧
-    ∀ l' : Labels,
-      let retry : VecAsm := { a.commit.1 with core := { a.commit.1.core with labels := l' } }
-      retry.commit = (retry, .ok) := by
-  simp [VecAsm.commit, Core.encodeRelocs, herr, hloop, hdyn, patchStatics, patchDynamics]
+    a.commit.2 = .err e ∧ a.commit.1.ops = b ∧ a.commit.1.core.dynamics = a.core.dynamics ∧
+    a.commit.1.core.labels = a.core.labels ∧ a.commit.1.core.statics ≠ [] ∧
+    ∃ pre, a.core.statics = pre ++ a.commit.1.core.statics ∧
+      patchStatics a.core.labels 0 a.base pre a.ops [] = (b, m, .ok) := by
+  obtain ⟨pre, h1, h2⟩ := Patch.staticsRest_split a.core.labels 0 a.base a.core.statics a.ops []
+  rw [hloop] at h2
+  have hne := Patch.staticsRest_ne_nil_of_err _ _ _ _ _ _ _ _ _ hloop
+  have hc : a.commit = ({ a with core := { a.core with statics := staticsRest a.core.labels 0 a.base a.core.statics a.ops }, ops := b }, .err e) := by
+    simp [VecAsm.commit, Core.encodeRelocs, herr, hloop]
+  rw [hc]
+  exact ⟨rfl, rfl, rfl, rfl, hne, pre, h1, h2⟩
 
-/-- non-vacuity: `jmp >l` (a 4-byte x64 field after the opcode byte) with `l` not defined yet -/
+/-- **The retry.** If the rest that stayed registered can be patched once the missing label exists (labels `l'`), the next commit
+succeeds, leaves nothing pending, and its buffer is the result of the successful loop over exactly those references — to which
+`reference_decodes_to_target` applies. Together with `failed_commit_keeps_unpatched`: every reference recorded before the failing commit
+has been patched by a successful loop step when a later commit returns `ok`. -/
+theorem retry_patches_the_rest (a : VecAsm) (b b' : List Byte) (m m' : List PatchLoc) (e : Err) (l' : Labels)
+    (herr : a.core.error = none) (hdyn : a.core.dynamics = [])
+    (hloop : patchStatics a.core.labels 0 a.base a.core.statics a.ops [] = (b, m, .err e))
+    (hretry : patchStatics l' 0 a.base a.commit.1.core.statics b [] = (b', m', .ok)) :
+    let retry : VecAsm := { a.commit.1 with core := { a.commit.1.core with labels := l' } }
+    retry.commit.2 = .ok ∧ retry.commit.1.ops = b' ∧ retry.commit.1.core.statics = [] := by
+  have hc : a.commit = ({ a with core := { a.core with statics := staticsRest a.core.labels 0 a.base a.core.statics a.ops }, ops := b }, .err e) := by
+    simp [VecAsm.commit, Core.encodeRelocs, herr, hloop]
+  rw [hc] at hretry ⊢
+  simp only at hretry
+  simp [VecAsm.commit, Core.encodeRelocs, herr, hretry, hdyn, patchDynamics, dynamicsRest]
+
+/-- non-vacuity: `jmp >l` (a 4-byte x64 field after the opcode byte) with `l` not defined yet: the commit fails, the reference stays -/
 def retryWitness : VecAsm :=
   { ops := [0xE9#8, 0#8, 0#8, 0#8, 0#8],
     core := { statics := [(⟨5, 4, 0, ⟨.p4, .relative⟩, 0⟩, 7, 1)] } }
